@@ -265,9 +265,11 @@ def exact_imposition(ctx):
     _same(ctx, f, """def func(x, *args, **kwds):
     xtype = type(x)
     x = asarray(list(x))
-    x = x.astype(result_type(x, asarray(target)))
+    _t = asarray(target, dtype=float)
+    if x.dtype.kind in 'iub' and not (_t - _t.round() == 0).all():
+        x = x.astype(result_type(x, _t))
     n = len(x)
-    if hasattr(target, '__len__'):
+    if _t.size > 1:
         at = [(i,t) for (i,t) in zip(index, target) if -n <= i < n]
         x[[i for (i,t) in at]] = [t for (i,t) in at]
     else:
@@ -278,14 +280,16 @@ def exact_imposition(ctx):
     g = ctx.func('mystic.constraints:impose_as.dec.func')
     _same(ctx, g, """def func(x, *args, **kwds):
     x = copy.copy(x)
-    pairs = connected(mask)
+    n = len(x)
+    _mask = [m for m in mask if all(-n <= k < n for k in m)]
+    _mask = [m for m in (tuple(k % n for k in m) for m in _mask) if m[0] != m[1]]
+    pairs = connected(_mask)
     pairs = pairs.items()
     for i,j in pairs:
         for k in j:
             try: x[k] = x[i]
             except IndexError: pass
-    n = len(x)
-    pairs = [m for m in mask if all(-n <= k < n for k in m)]
+    pairs = _mask
     while pairs:
         indx,trac = zip(*pairs)
         trac = set(trac)
@@ -386,13 +390,24 @@ def collapse_settings_forwarded_exactly(ctx):
         is_none = [tr for tt, tr in lits if tt[0] == 'cmp' and tt[1] in ('is', 'isnot', '==', '!=') and tt[2] in tgt and tt[3] == ('const', None)]
         # a list of targets holds one target per PARAMETER: under hasattr(target, '__len__') the collapsed parameters' own
         # entries [target[i] for i in collapse] are what impose_at must get (index k of the collapse paired with target[k])
-        seq_lit = [(tt, tr) for tt, tr in lits if tt[0] == 'call' and T.show(tt[1]) == 'hasattr' and len(tt[2]) == 2 and tt[2][0] in tgt and tt[2][1] == ('const', '__len__')]
+        def _is_seq_test(tt):
+            # hasattr(target, '__len__'), possibly narrowed to "... and it has more than one entry" (a 0-d array or a one-element
+            # target is a single value that is broadcast): and(hasattr(t,'__len__'), getattr(t,'ndim',1), 1 < len(t))
+            if tt[0] == 'call' and T.show(tt[1]) == 'hasattr' and len(tt[2]) == 2 and tt[2][0] in tgt and tt[2][1] == ('const', '__len__'):
+                return True
+            if tt[0] == 'and' and any(_is_seq_test(c_) for c_ in tt[1:]):
+                rest = [c_ for c_ in tt[1:] if not _is_seq_test(c_)]
+                return all(any(x in tgt for x in T.subterms(c_)) and ((c_[0] == 'call' and T.show(c_[1]) == 'getattr') or (c_[0] == 'cmp' and 'len(' in T.show(c_))) for c_ in rest)
+            return False
+        seq_lit = [(tt, tr) for tt, tr in lits if _is_seq_test(tt)]
         other = [tt for tt, tr in lits if not (tt[0] == 'cmp' and tt[2] in tgt and tt[3] == ('const', None)) and (tt, tr) not in seq_lit]
         if seq_lit and app is not None and app[0] == 'call' and T.show(app[1]).endswith('impose_at') and len(app[2]) == 2:
             a1 = app[2][1]
             wants = [T.simp(T.term(ast.parse("[(state[%s]['target'] if 'target' in state[%s] else None)[i] for i in collapses[%s]]" % (key, key, key), mode='eval').body)),
                      T.simp(T.term(ast.parse("[state[%s].get('target')[i] for i in collapses[%s]]" % (key, key), mode='eval').body))]
             per_param = a1 in wants and app[2][0] == ('sub', ('name', 'collapses'), ('name', key))
+            if seq_lit[0][1] is True and seq_lit[0][0][0] != 'and':
+                bad = bad or ('every target with a length is indexed per collapsed parameter, also a one-element (or 0-d) target that stands for a single value: [t[i] for i in collapse] then raises IndexError inside Solve', p)
             if seq_lit[0][1] is True:
                 if not per_param:
                     bad = bad or ('a list of targets is handed to impose_at whole (%s): it holds one target per parameter, not one per collapsed index' % T.show(a1)[:60], p)
